@@ -19,7 +19,7 @@ META = {
         "quick": {"evaluations": 4000, "distinct_nontrivial": 800, "tables": {"fn/qr": 800, "fn/qr-stabilized": 500, "fn/svd": 800, "fn/eigh": 400, "fn/solve": 400, "feature/fermionic": 1200, "feature/pending-signs": 150, "feature/fused": 300, "feature/rank-deficient-block": 200, "feature/missing-blocks": 500}},
         "thorough": {"evaluations": 120000, "distinct_nontrivial": 25000, "tables": {"fn/eigh": 10000, "fn/solve": 10000}},
     },
-    "wall": {"quick": 300, "thorough": 1500},
+    "wall": {"quick": 900, "thorough": 1500},
 }
 
 TOL = 1e-9
